@@ -294,6 +294,14 @@ func (doc *Document) nonIndividuals() Nodes {
 
 func (doc *Document) SetNodes(nodes Nodes) {
 	doc.nodes = nodes
+
+	// Everything that was derived from the root nodes has to be derived again.
+	doc.families = nil
+	doc.buildPointerCache()
+
+	for _, individual := range doc.Individuals() {
+		individual.resetCache()
+	}
 }
 
 func individuals(doc *Document) IndividualNodes {
